@@ -64,6 +64,8 @@ type ErrPlan struct {
 	CtxErr    bool        // wait for the handler's context to finish, return ctx.Err()
 	CtxKind   int         // 1 context.Canceled, 2 context.DeadlineExceeded, 3/4 the same wrapped with %w
 	WrapCtx   int         // coded error whose cause wraps a context error of a sub-operation: 1 context.Canceled, 2 context.DeadlineExceeded
+	Shared    bool        // a sentinel: every call that shares this plan returns the very same error value
+	built     error
 }
 
 type DetailPlan struct {
